@@ -158,12 +158,24 @@ func dvDirected(g *gen) {
 	dvRun(g, 3, []int{0, 0, 0}, 0, []dvOp{{K: "inherit"}, {K: "sett", V: 4}, {K: "in", I: 0, V: 2}, {K: "in", I: 1, V: 1}, {K: "uninherit"}, {K: "in", I: 2, V: 1}}, "directed")
 	// accumulator compute: one recompute per input at construction and per change
 	dvRun(g, 5, []int{1, 1, 1, 1}, 10, []dvOp{{K: "in", I: 3, V: 2}, {K: "in", I: 3, V: 2}, {K: "setd", V: 0}, {K: "in", I: 0, V: 0}}, "directed")
+	// zero-valued inputs at construction: every input subscription still recomputes once (OnUpdate(..., true))
+	for ar := 1; ar <= 4; ar++ {
+		for z := 0; z < ar; z++ {
+			ins := []int{2, 2, 2, 2}[:ar]
+			ins = append([]int{}, ins...)
+			ins[z] = 0
+			dvRun(g, 5, ins, 1, []dvOp{{K: "in", I: z, V: 1}, {K: "in", I: z, V: 0}}, "directed")
+		}
+	}
 	dvRun(g, 4, []int{0}, 3, []dvOp{{K: "in", I: 0, V: 3}, {K: "inherit"}, {K: "inherit"}, {K: "uninherit"}, {K: "in", I: 0, V: 0}, {K: "uninherit"}, {K: "in", I: 0, V: 1}}, "directed")
 }
 
 func dvRandom(g *gen, n int) {
 	r := g.r.Fork()
 	f := r.Intn(6)
+	if r.Chance(1, 4) {
+		f = 5 // the accumulator notices every extra or missing recompute
+	}
 	ar := 1 + r.Intn(4)
 	ins0 := make([]int, ar)
 	for i := range ins0 {
